@@ -393,13 +393,13 @@ class Pair(object):
     """p2p.Pair on a BudgetSched (same interface)"""
 
     def __new__(cls, choices=(), seed=0, opts_i=None, opts_t=None,
-                step_budget=400000):
+                step_budget=400000, medium=None):
         from . import p2p
         orig = vsched.Sched
         vsched.Sched = BudgetSched      # p2p.Pair looks the class up here
         try:
             return p2p.Pair(choices, seed=seed, opts_i=opts_i, opts_t=opts_t,
-                            step_budget=step_budget)
+                            step_budget=step_budget, medium=medium)
         finally:
             vsched.Sched = orig
 
